@@ -42,10 +42,10 @@ TIERS = {
     # enum: groups of domains explored by one JVM each (domains, TLC workers, spellings per program); fixed: the same for
     # the Fix = all runs; witness: "all" = one run over the unrestricted domain, "each" = one run per trigger (Allow = {t});
     # ntarget: seeded random programs evaluated in target mode (tvariants spellings each); procs: replay processes
-    "quick": {"enum": [(["pair_q", "single3q", "tree_q"], 4, 1), (["triple_q", "single2"], 4, 1)], "fixed": [(["single2", "pair_w"], 2)],
+    "quick": {"enum": [(["pair_q", "single3q", "tree_q"], 4, 1), (["triple_q", "single2", "reload_q"], 4, 1)], "fixed": [(["single2", "pair_w"], 2)],
               "witness": "all", "ntarget": 3000, "tvariants": 1, "procs": 10, "jvms": 6},
     "thorough": {"enum": [(["pair_t"], 5, 1), (["triple_t"], 5, 1), (["single3"], 5, 1), (["pair_m", "single4"], 5, 1), (["pairhdr"], 5, 1),
-                          (["tree_t"], 5, 1), (["pair_q", "single3q", "triple_q", "single2", "tree_q"], 4, 2)],
+                          (["tree_t", "reload_t"], 5, 1), (["pair_q", "single3q", "triple_q", "single2", "tree_q", "reload_q"], 4, 2)],
                  "fixed": [(["pair_q", "single3q", "triple_q", "single2", "pair_w", "tree_q"], 4), (["pair_m", "pairhdr"], 5)],
                  "witness": "each", "ntarget": 50000, "tvariants": 2, "procs": 10, "jvms": 3},
 }
@@ -208,7 +208,7 @@ def main(tier: str, replay: str | None = None):
             agg.account(res.cases[0])
             jobdir = os.path.join(directory, "j0")
             os.makedirs(jobdir)
-            agg.absorb(R.replay_chunk((0, jobdir, items, agg.fix)))
+            agg.absorb(R.replay_chunk((int(c.get("style", 0)), jobdir, items, agg.fix)))     # chunk id parity = load style
             for k, v in agg.drift.items():
                 run.note(f"{v} program(s): {k}")
             run.finish()
@@ -304,7 +304,7 @@ def main(tier: str, replay: str | None = None):
         # ---- vacuity
         for doms, _w, _nv in cfg["enum"]:
             for dom in doms:
-                if counts.get(dom, 0) < 1000:
+                if counts.get(dom, 0) < 500:
                     die(f"C18: domain {dom} produced only {counts.get(dom, 0)} programs - vacuous")
         if len(run.nontrivial) < 5000:
             die(f"C18: only {len(run.nontrivial)} non-trivial programs - vacuous")
